@@ -1,6 +1,6 @@
 import extract
 import callgraph
-from rules import c01, c01i, c01p, c01s, c01t, recursion, bufbudget, common
+from rules import c01, c01i, c01p, c01s, c01t, c01u, recursion, bufbudget, common
 
 # entry points whose recursion is driven by user-shaped data (reader, writer, equal?, eval, strip)
 C01_RECURSION_ROOTS = ["sexp_read_op", "sexp_write_op", "sexp_equalp_op", "sexp_eval_op", "sexp_analyze",
@@ -35,6 +35,7 @@ def run(res, tier, replay=None):
     c01p.run_r(prog, res)
     c01s.run(prog, res, floor=20)
     c01t.run(prog, res)
+    c01u.run(prog, res)
     if tier == "thorough":
         flt = c01.scope_filter()
         common.thorough_mutations(res, "C01", {
@@ -58,6 +59,7 @@ def run(res, tier, replay=None):
             "C01.r": lambda p, r: c01p.run_r(p, r, floor=0),
             "C01.s": lambda p, r: c01s.run(p, r, floor=0),
             "C01.t": lambda p, r: c01t.run(p, r, floor=0),
+            "C01.u": lambda p, r: c01u.run(p, r, floor=0),
         })
     if tier == "thorough":
         # after the mutation witnesses: findings of other configurations must not count as their baseline
@@ -96,5 +98,6 @@ def run(res, tier, replay=None):
         "num_args+1 or establish a class whose arm in generate_opcode_app loops over the operands (read from that switch): "
         "the instruction of every other opcode pops a fixed number of values, surplus operands stay on the VM stack behind the "
         "depth bookkeeping and pushes run past the ensured stack size. "
+        "(u) along every path of a generating function of vm.c the values pushed by the instructions it emits itself (VM cases that end with top one higher) are covered by its positive calls of sexp_inc_context_depth: max_depth is what sexp_ensure_stack reserves on entry to the procedure. "
         "Not decided: pointer-walking loops, memcpy lengths, the signal-handler table, "
         "the reader's label table (value invariant), reader token buffers beyond C01.h, stack growth sufficiency, OOM paths.")
